@@ -275,6 +275,40 @@ def handle (d : DState) (line : String) : DState × String :=
           | some .part => "part"
         (d, s!"{",".intercalate (out.map showR)} final={fin}")
       | _, _, _ => bad
+    | "MR" =>
+      -- multi-round workflow on a fresh directory
+      match (kv args "F").bind String.toNat?, (kv args "bf").bind String.toNat?, (kv args "thr").bind parseRat,
+            (kv args "chg").bind parseRat, (kv args "tol").bind parseRat, (kv args "bin").bind String.toNat?,
+            (kv args "mids").bind String.toNat? with
+      | some F, some bf, some thr, some chg, some tol, some bin, some mids =>
+        let files? := (splitList "|" (kvD args "files" "-")).mapM (fun f => parseRows F f)
+        let mode : BB.MR.RefineMode := match kvD args "mode" "none" with
+          | "split" => .split | "full" => .full | _ => .none
+        let sched : Nat → List Nat → List Nat := fun r idxs =>
+          let entries := (splitList ";" (kvD args "sched" "-")).filterMap (fun e =>
+            match e.splitOn ":" with
+            | [rr, p] => match rr.toNat?, parseNats "." p with
+              | some rr, some p => some (rr, p)
+              | _, _ => none
+            | _ => none)
+          match entries.find? (fun e => e.1 == r) with
+          | some e => if e.2.isPerm idxs then e.2 else idxs
+          | none => idxs
+        match files? with
+        | none => bad
+        | some files =>
+          let c : BB.MR.Cfg := { bf := bf, thr := thr, thrChange := chg, tol := tol, initCrit := kvD args "init" "diameter", midCrit := kvD args "mid" "diameter", finalCrit := kvD args "final" "diameter", mode := mode, splitAfterMid := kvD args "split" "0" == "1", binSize := bin, nMidRounds := mids, saveCentroids := kvD args "cent" "1" == "1", cleanup := kvD args "cleanup" "1" == "1" }
+          match BB.MR.multiround (refPolicy d.X) c files sched [] with
+          | .error x => (d, s!"err:{x.name}")
+          | .ok fs =>
+            let showC : BB.MR.Content → String
+              | .bufs w rows => s!"bufs:{w.name}:" ++ ",".intercalate (rows.map (fun r => showNats "." r.1 ++ "#" ++ toString r.2))
+              | .idxs ids => "idxs:" ++ ",".intercalate (ids.map (showNats "."))
+              | .clusters cs => "clusters:" ++ ";".intercalate (cs.map (showNats "."))
+              | .centroids cs => "centroids:" ++ ",".intercalate (cs.map rowToHex)
+              | .other t => s!"other:{t}"
+            (d, "ok " ++ " ".intercalate (fs.map (fun f => s!"{f.1}={showC f.2}")))
+      | _, _, _, _, _, _, _ => bad
     | "MINSAFE" =>
       match (kv args "n").bind String.toNat? with
       | some n => (d, match minSafe? n with | some w => w.name | none => "err:ValueError")
